@@ -923,4 +923,21 @@ theorem linv_histRead_storage_any (ch : List Diff) (s : LState) (hinv : LInv ch 
   · have hne : ((absAt ch n).stor a k != 0) = true := by simp [hz]
     simp [hne]
 
+/-- with the re-scan, a storage read torn by any commits that keep blocks `0..n` answers for block `n` -/
+theorem linv_tornStorage (ch₁ ch₂ : List Diff) (s₁ s₂ : LState) (h₁ : LInv ch₁ s₁) (h₂ : LInv ch₂ s₂) (n : Nat)
+    (hsame : ch₂.drop (ch₂.length - 1 - n) = ch₁.drop (ch₁.length - 1 - n)) (a : Addr) (k : Slot) :
+    LState.tornStorageValue true s₁ s₂ n a k = (absAt ch₁ n).stor a k := by
+  have v₁ := linv_value ch₁ s₁ h₁ (.storage a k) n (fun a' e => by cases e)
+  have v₂ := linv_value ch₂ s₂ h₂ (.storage a k) n (fun a' e => by cases e)
+  have hh : s₂.storageHead a k = (absOf ch₂).stor a k := h₂.trie a k
+  have hab : absAt ch₂ n = absAt ch₁ n := by unfold absAt; rw [hsame]
+  unfold LState.tornStorageValue
+  simp only [if_true]
+  rcases hl : legacyValueAt (lget s₁.logs (.storage a k)) n with _ | v
+  · simp only [Option.getD_none, hh]
+    simp only [keyVal] at v₂
+    rw [v₂, hab]
+  · simp only [hl, Option.getD_some, keyVal] at v₁
+    simp only [Option.getD_some, v₁]
+
 end Juno.C03
